@@ -112,6 +112,8 @@ pub struct Outcome {
     pub control: Control,
     /// the position (FEN) at which the search observed its stop or expired limit, if it did (hook H3)
     pub stopped_at: Option<String>,
+    /// node entries after the search had observed its stop (hook H5); 0 without the hook
+    pub nodes_after_stop: u64,
 }
 
 fn stopped_at() -> Option<String> {
@@ -150,7 +152,21 @@ pub fn run_search(game: &Game, state: &mut PersistentState, limit: &Limit, stop_
     let (mut ts, control) = TimeStrategy::new(game, &tc, &options);
     // stop_at_poll >= EXPIRY: not the stop flag but the time limit reads as expired from poll
     // (stop_at_poll - EXPIRY) on (hook H4) - the other way a search comes to an end
-    if stop_at_poll >= EXPIRY {
+    // stop_at_poll >= AT_NODE: the stop (or, from AT_NODE + EXPIRY on, the expired limit) is observed when
+    // the node counter reaches that value: the first in-search poll is placed there (hook H5)
+    if stop_at_poll >= AT_NODE {
+        #[cfg(hook_at_node)]
+        {
+            // the hook's state must be in place when the TimeStrategy is built (it reads the position of
+            // its first poll then)
+            let v = stop_at_poll - AT_NODE;
+            verif_hooks::arm_at_node(if v >= EXPIRY { v - EXPIRY } else { v }, v >= EXPIRY);
+            let (ts2, _c2) = TimeStrategy::new(game, &tc, &options);
+            ts = ts2;
+        }
+        #[cfg(not(hook_at_node))]
+        verif_hooks::arm(0);
+    } else if stop_at_poll >= EXPIRY {
         #[cfg(hook_expiry)]
         verif_hooks::arm_expiry(stop_at_poll - EXPIRY);
         #[cfg(not(hook_expiry))]
@@ -161,9 +177,16 @@ pub fn run_search(game: &Game, state: &mut PersistentState, limit: &Limit, stop_
     let r = catch(|| search::search(game, state, &mut ts, &restrictions, &options, &mut reporter));
     let polls = verif_hooks::polls();
     let stopped_at = stopped_at();
+    #[cfg(hook_at_node)]
+    let nodes_after_stop = verif_hooks::nodes_after_stop();
+    #[cfg(not(hook_at_node))]
+    let nodes_after_stop = 0;
     verif_hooks::arm(0);
-    r.map(|best| Outcome { best, infos: reporter.infos, polls, control, stopped_at })
+    r.map(|best| Outcome { best, infos: reporter.infos, polls, control, stopped_at, nodes_after_stop })
 }
+
+/// Offset that marks an index as a node count (the stop is observed when the search reaches that node)
+pub const AT_NODE: u64 = 2_000_000_000;
 
 /// Offset that marks a poll index as "limit expired at this poll" instead of "stop flag set at this poll".
 pub const EXPIRY: u64 = 1_000_000_000;
@@ -186,7 +209,7 @@ pub fn run_search_with_stopper(game: &Game, state: &mut PersistentState, limit: 
     });
     let polls = verif_hooks::polls();
     let stopped_at = stopped_at();
-    r.map(|best| Outcome { best, infos: reporter.infos, polls, control, stopped_at })
+    r.map(|best| Outcome { best, infos: reporter.infos, polls, control, stopped_at, nodes_after_stop: 0 })
 }
 
 /// One reported line in a form that both the in-process reporter and the binary's text give.
